@@ -183,6 +183,31 @@ def _shape_table():
             cur += ln + 1 + (i % 2)
         return vs if cur < hi else vs[:20]
 
+    @shape("span_alias")
+    def _(r, lo, hi, signed, bits):
+        # (max - min) equals (number of variants - 1) modulo the next narrower width: a truncated span looks gapless
+        w = {16: 8, 32: 16, 64: 32, 128: 32}.get(bits)
+        if w is None:
+            return None
+        return [0, 1, (1 << w) + 2]
+
+    @shape("span_alias_neg")
+    def _(r, lo, hi, signed, bits):
+        w = {16: 8, 32: 16, 64: 32, 128: 32}.get(bits)
+        if w is None or not signed:
+            return None
+        return [-3, -2, -1, (1 << w) + 1]
+
+    @shape("even_step_wide")
+    def _(r, lo, hi, signed, bits):
+        # evenly spaced, step not a power of two, spanning more than half of the type
+        span = hi - lo
+        step = span // 5 - 1
+        if step & (step - 1) == 0:
+            step -= 1
+        start = lo + 3
+        return [start + k * step for k in range(5)]
+
     @shape("many_runs_40")
     def _(r, lo, hi, signed, bits):
         # ~40 runs of uneven length (more than any plausible "many runs" threshold), ~100 variants
